@@ -55,19 +55,36 @@ SCENARIO = [
     # (and here the ignored second OPEN is the one WITHOUT capabilities)
     ('OP_STOP',), ('OP_START',), ('CONN_OK', 1), ('RX', 1, 'OPEN_OK'), ('RX', 1, 'OPEN_NOOPT'), ('RX', 1, 'KA'), ('CLOSE_DONE', 0),
     ('RX', 0, 'UPD'), ('REST', 'send_update'), ('REST', 'state'), ('REST', 'stat'),
+    # session 6: the peer drops that session: the agent must notice (it is the *current* session whatever the late close did) and come back
+    ('PEER_CLOSE', 0), ('TICK', 0), ('CONN_OK', 0), ('RX', 0, 'OPEN_OK'), ('RX', 0, 'KA'), ('REST', 'state'),
 ]
 LATE_CLOSE = max(i for i, e in enumerate(SCENARIO) if e == ('CLOSE_DONE', 0))        # the CLOSE_DONE of session 5
 SESSION_STARTS = (1, 10, 19)       # index of the TICK that starts each session
 SESSION4_UPD = 32                  # index of the 2-octet-AS UPDATE of session 4
 
 
-def _trace(cfg):
+# a second, short scenario: the old connection's close arrives while the new connection is still in OpenSent; that connection is then
+# lost, the next attempt is refused - and the agent must still come back (every event must be possible, the end Established)
+# ('TICKS' = let timers fire, at most four, until an attempt is pending)
+SCENARIO_B = [('TICK', 0), ('CONN_OK', 0), ('RX', 0, 'OPEN_OK'), ('RX', 0, 'KA'),
+              ('OP_STOP',), ('OP_START',), ('CONN_OK', 1), ('CLOSE_DONE', 0), ('PEER_CLOSE', 0), ('TICKS',), ('CONN_REFUSED', 0), ('TICKS',),
+              ('CONN_OK', 0), ('RX', 0, 'OPEN_OK'), ('RX', 0, 'KA')]
+
+
+def _trace(cfg, scenario=None):
     m = _messages()
     w = W.AgentWorld(cfg)
     out = []
-    for ev in SCENARIO:
+    for ev in (scenario or SCENARIO):
         try:
-            obs = w.step(ev, m)
+            if ev == ('TICKS',):
+                obs = []
+                for _ in range(4):
+                    if w.connecting() or not w.due():
+                        break
+                    obs += w.step(('TICK', 0), m)
+            else:
+                obs = w.step(ev, m)
         except W.ReplayDivergence as e:
             out.append((ev, 'NOT ENABLED: %s' % e, w.reported_state(), None, None))
             break
@@ -80,6 +97,10 @@ def _run(cfg):
     a = _trace(cfg)
     b = _trace(cfg)
     v = []
+    sb = _trace(cfg, SCENARIO_B)
+    if len(sb) != len(SCENARIO_B) or sb[-1][2] != 'ESTABLISHED':
+        v.append(('session-independence|the agent does not come back after: stop, start, late close of the old connection, loss of the new one in OpenSent, a refused attempt',
+                  {'stopped_at': len(sb) - 1, 'event': sb[-1][0], 'state': sb[-1][2], 'why': str(sb[-1][1])[:200]}))
     for i, (x, y) in enumerate(zip(a, b)):
         if x != y:
             v.append(('instance-independence|a second agent instance in the same process behaves differently from the first',
@@ -118,6 +139,9 @@ def _run(cfg):
         if (send5[1], send5[3]) != (send1[1], send1[3]):
             v.append(('session-independence|after the late close of the previous connection the same REST send is answered / encoded differently',
                       {'session_1': repr(send1[1:])[:500], 'session_5': repr(send5[1:])[:500]}))
+        if a[-1][2] != 'ESTABLISHED' or a[-6][2] == 'ESTABLISHED':
+            v.append(('session-independence|after the late close of the previous connection the loss of the current session is not handled as a loss',
+                      {'state_after_peer_close': a[-6][2], 'state_at_the_end': a[-1][2]}))
         last_upd = a[SESSION4_UPD]
         if not any(e[0] == 'cb' and e[1] == 'update_received' for e in last_upd[1]):
             v.append(('session-independence|a peer that returns without the capabilities of the earlier sessions is still treated as having them',
